@@ -215,3 +215,5 @@ SPEC = dict(contracts=['nd.h', 'dv.h', 'c05_tag.h', 'c05_dispatch.h', 'c05_listc
                           'assumed: positionAndExtentInData contract (contracts/dv.h; its job does not terminate, see DESIGN 12)'],
             assumptions=['KERNEL ONLY: getOffsetAndCount (the per-dimension index assembly, padding of unspecified dimensions, unit scaling) is behind a contract that leaves its result unconstrained; '
                          'the sentence "returns exactly the block of elements whose coordinate c satisfies p <= c <= p+e" is therefore NOT decided here (per-axis index rules: C07)'])
+
+SPEC['assumptions'] = list(SPEC.get('assumptions', [])) + ['session 3: getMaxExtent - the axis is abstracted to two coordinates (x_0, x_max); the extent clause is exact only on an enumerated set of coordinate pairs (a symbolic floating-point subtraction on both sides does not terminate); x0 + (xq - x0) == xq in doubles is treated as mathematical', "session 3: positionToIndex dispatchers / list converters / single-position converter - their callees (converters, scalePositions, the axis' indexOf, getSIScaling as the constant 0.5) are ghost records of their arguments; the chain is verified unit by unit, not composed into one theorem", 'KNOWN FINDING KF-C05-exclusive-padding: in Exclusive mode a dimension the tag does not specify loses its last element (reported on every run, not counted)']
